@@ -127,6 +127,43 @@ theorem finish_ok (env : Env) (s s' : Dict) (h : finish env s = .ok s') :
       have := hg g hgm
       simpa using this
 
+theorem dlast_dput_ne (d : Dict) (g k : Str) (x : PyVal) (h : g ≠ k) : dlast (dput d g x) k = dlast d k := by
+  induction d with
+  | nil => simp [dput, dlast, h]
+  | cons hd tl ih =>
+    obtain ⟨a, b⟩ := hd
+    by_cases ha : a = g
+    · have hak : a ≠ k := fun e => h (ha ▸ e)
+      simp [dput, ha, dlast, h]
+    · simp [dput, ha, dlast, ih]
+
+/-- `_update_dict({'conf': v})` writes nothing but `conf` -/
+theorem effective_conf (v : PyVal) (k : Str) (hk : k ≠ kConf) : dlast (effective [(kConf, v)]) k = none := by
+  have hng : ¬ (kConf = kNoGpg) := by decide
+  have hk' : ¬ (kConf = k) := fun e => hk e.symm
+  unfold effective
+  by_cases hp : kConf ∈ protectedNames
+  · simp [List.filter, hp, dget, dlast]
+  · by_cases ho : kConf ∈ optNames <;>
+      simp [List.filter, hp, ho, dget, dlast, hng, hk']
+
+/-- if `conf` may be written at all, a layer that contains it writes its last value -/
+theorem effective_has_conf (d : Dict) (v : PyVal) (h : dlast d kConf = some v)
+    (hp : kConf ∉ protectedNames) (ho : kConf ∈ optNames) : dlast (effective d) kConf = some v := by
+  have hg : kGpg ≠ kConf := by decide
+  have h1 : dlast (d.filter (fun kv => !protectedNames.contains kv.1)) kConf = some v := by
+    rw [dlast_filter _ (fun k => !protectedNames.contains k)]
+    simp [hp, h]
+  unfold effective
+  simp only []
+  rw [dlast_filter _ (fun k => optNames.contains k)]
+  simp only [List.contains_iff_mem, ho, if_true]
+  split
+  · split
+    · rw [dlast_dput_ne _ _ _ _ hg]; exact h1
+    · exact h1
+  · exact h1
+
 /-- the stages of a successful `loadAll` -/
 theorem loadAll_ok (inp : Input) (s : Dict) (h : loadAll inp = .ok s) :
     ∃ s0 cli0 s1, construct inp = .ok s0 ∧ cliDict inp.cli = .dict cli0 ∧
@@ -143,13 +180,11 @@ theorem loadAll_ok (inp : Input) (s : Dict) (h : loadAll inp = .ok s) :
       | ok s1 => simp only [hp] at h; exact ⟨s0, cli0, s1, rfl, rfl, hp, h⟩
       | valueError m => simp [hp] at h
       | exit => simp [hp] at h
-      | noSection => simp [hp] at h
       | bad => simp [hp] at h
     | exit => simp [hd] at h
     | bad => simp [hd] at h
   | valueError m => simp [hc] at h
   | exit => simp [hc] at h
-  | noSection => simp [hc] at h
   | bad => simp [hc] at h
 
 end IV.ClientLoad
